@@ -204,6 +204,8 @@ class run_screen_event_loop:
         ML + "MainLoop.process_input": _with_effects(M.process_input, "process_input", args=("keys",)),
     }
 
+    never_returns = True  # (callers: no reach@after guard is owed for a call that cannot return)
+
     def ensures(old, s, a, result):
         yield "never-returns-normally (it ends with the exception of a callback)", False
 
